@@ -26,6 +26,9 @@ Proof.
   - apply Rmult_le_pos; lra.
 Qed.
 
+(* np.radians *)
+Definition radians (r : R) : R := r * (PI / 180).
+
 (* np.clip(d, lo, hi) *)
 Definition clipR (lo hi d : R) : R := Rmax lo (Rmin hi d).
 Definition clip (d : R) : R := clipR (-1) 1 d.
